@@ -73,7 +73,7 @@ def prog_text(outcome, tp, ta, explicit, imp=0):
     return '\n'.join(lines) + '\n'
 
 
-SPECIALS = ['rebind_path', 'rebind_argv', 'rebind_both', 'threads', 'suspended_gen', 'settrace_none']
+SPECIALS = ['rebind_path', 'rebind_argv', 'rebind_both', 'threads', 'suspended_gen', 'settrace_none', 'worker_only']
 # programs that drive the builtin `profile` object themselves (kernprof -l / -b put it there): left open, or balanced
 LEAVES = dict(leave_bycount_untraced='LByCount', leave_untraced='LEnableUntraced', leave_enable='LEnable', leave_bycount='LByCount', leave_with='LByCount', balanced_enable='LNone', balanced_with='LNone',
               balanced_bycount='LNone')
@@ -105,6 +105,12 @@ def special_text(kind, outcome, explicit=0):
         # function itself (as trace.Trace.runfunc, bdb / pdb on quit, coverage tools do)
         lines.insert(1, 'import json')
         lines.insert(2, 'from helper_mod import helper')
+    if kind == 'worker_only':       # every profiled call happens in a worker thread, the main thread never enters profiled code
+        lines += ['import threading', '@profile', 'def in_worker(n):', '    return sum(range(n))',
+                  '_ts = [threading.Thread(target=in_worker, args=(50,)) for _ in range(2)]',
+                  'for _t in _ts:', '    _t.start()', 'for _t in _ts:', '    _t.join()']
+        lines += dict(ret=[], exit=['sys.exit(3)'], exc=["raise ValueError('boom')"])[outcome]
+        return '\n'.join(lines) + '\n'
     if kind == 'suspended_gen':     # a profiled generator (and a coroutine-free twin) left suspended when the program ends:
         # it is finalised later, when the program's namespace goes away (the next run replaces builtins.profile)
         lines += ['@profile', 'def gen(n):', '    for i in range(n):', '        yield i',
@@ -156,6 +162,8 @@ def all_files():
             nm = prog_name(outcome, tp, ta, ex, imp) + '.py'
             files[nm] = prog_text(outcome, tp, ta, ex, imp)
             files['sub/' + nm] = prog_text(outcome, tp, ta, ex, imp)
+            if (tp, ta, ex, imp) == (1, 1, 0, 0):
+                files['pathdir/onpath_' + nm] = prog_text(outcome, tp, ta, ex, imp)
     return files
 
 
@@ -214,8 +222,8 @@ def make_run(l, b, m, setup, interval, where, extras, sargs, outcome, tp, ta, ex
         script, sdir = name, ''
         args += ['-m', name]
     else:
-        script = dict(rel=name + '.py', sub='sub/' + name + '.py', abs='{TMP}/sub/' + name + '.py')[where]
-        sdir = dict(rel='', sub='sub', abs='/T/sub')[where]
+        script = dict(rel=name + '.py', sub='sub/' + name + '.py', abs='{TMP}/sub/' + name + '.py', path='onpath_' + name + '.py')[where]
+        sdir = dict(rel='', sub='sub', abs='/T/sub', path='/T/pathdir')[where]      # bare name: only $PATH finds it (mode 0644)
         args.append(script)
     args += sargs
     return dict(args=args, l=l, b=b, m=m, setup='setupd' if setup else None, interval=interval or 0,
@@ -269,12 +277,22 @@ def gen_cases(tier, rnd):
     # 1d. programs that rebind sys.path / sys.argv, and threaded programs with overlapping profiled calls (-l only:
     #     ContextualProfile's count is shared between threads, C05), every mode x outcome x script / module
     for special in SPECIALS:
-        for l, b in (((True, False), (False, True), (False, False)) if special not in ('threads', 'suspended_gen') else ((True, False), (True, True))):
+        for l, b in (((True, False), (False, True), (False, False)) if special not in ('threads', 'suspended_gen', 'worker_only') else ((True, False), (True, True))):
             for outcome in ('ret', 'exit', 'exc'):
                 for m in (False, True):
                     r = make_run(l, b, m, rnd.random() < 0.3, None, rnd.choice(['rel', 'sub']), [], ['a'], outcome, 0, 0,
                                  int((l or b) and rnd.random() < 0.3), special=special)
                     cases.append(dict(kind='special-program', init=init0, runs=[r]))
+    # 1d+. profiled calls only in worker threads, then a cProfile-flavour run; scripts given by bare name and found on $PATH
+    for outcome in ('ret', 'exit', 'exc'):
+        for l2, b2 in ((False, True), (False, False), (True, False)):
+            r1 = make_run(True, rnd.random() < 0.3, False, False, None, 'rel', [], [], outcome, 0, 0, 0, special='worker_only')
+            r2 = make_run(l2, b2, False, False, None, 'sub', [], [], 'ret', 0, 0, int(l2 or b2))
+            cases.append(dict(kind='special-program', init=init0, runs=[r1, r2]))
+    for l, b in ((True, False), (False, True), (False, False), (True, True)):
+        for outcome in ('ret', 'exit', 'exc'):
+            cases.append(dict(kind='script-on-path', init=init0,
+                              runs=[make_run(l, b, False, rnd.random() < 0.2, None, 'path', [], ['a'], outcome, 1, 1, 0)]))
     # 1d". -p registrations outstanding AND the program removes the trace function itself, then a second run
     for sel in ('json', 'helper', 'both', None):
         for outcome in ('ret', 'exit', 'exc'):
